@@ -273,9 +273,11 @@ def run_case(case, ctx):
                                       f"without the fault raised {retry[1]}: {retry[2][:160]}; pid state before the "
                                       f"retry: {'served' if is_ok(o) else o[1]}; scenario {sc.summary()}",
                                       dict(sig, failure="retry-rejected", retry_err=retry[1]))
-                    elif case["kind"] != "tag_first_noobj" and (not is_ok(o2) or o2[1] != want):
+                    elif (("ok", o2[1]) if is_ok(o2) else ("err", o2[1])) != ref_served[("obj", scen.T)]:
+                        # (what the fault-free call makes of the pid: its bytes, or "object missing" for a tag before the upload)
                         ctx.violation("retry-not-retrievable", f"{where}: retry succeeded but the pid yields "
-                                      f"{o2[1] if not is_ok(o2) else seq._short(o2[1])}; scenario {sc.summary()}",
+                                      f"{o2[1] if not is_ok(o2) else seq._short(o2[1])} (fault-free run: "
+                                      f"{scen._s(ref_served[('obj', scen.T)])}); scenario {sc.summary()}",
                                       dict(sig, failure="retry-not-retrievable"))
             elif tgt["op"] == "smeta":
                 key = ("meta", scen.T, tgt.get("fmt"))
